@@ -167,7 +167,7 @@ func c13Case(c *checker, api string, t byte, b []byte) {
 	switch api {
 	case "env-stream", "env-decode":
 		wdEnter("A env " + hx(b))
-	case "frame", "frame8":
+	case "frame", "frame8", "frame-after-large":
 		wdEnter("A frame " + hx(b))
 	default:
 		wdEnter(fmt.Sprintf("A stream %d %s", t, hx(b)))
@@ -225,6 +225,18 @@ func c13Case(c *checker, api string, t byte, b []byte) {
 			modelOp = "A frame " + hx(b)
 			got = measure(func() {
 				fr := verifhook.NewFrameReader(io.NopCloser(newChunkReader(b, nil)))
+				_, _ = fr.Read()
+			})
+		case "frame-after-large":
+			// state left behind: the same reader has read a genuine frame of 33 MiB before (only the
+			// read of the second frame, the bare header b with a few bytes, is measured)
+			big := make([]byte, 4+33<<20)
+			big[0], big[1], big[2], big[3] = 0x02, 0x10, 0, 0 // 33 MiB
+			fr := verifhook.NewFrameReader(io.NopCloser(io.MultiReader(bytes.NewReader(big), newChunkReader(b, nil))))
+			if first, err := fr.Read(); err != nil || len(first) != 33<<20 {
+				panic(fmt.Sprintf("the genuine first frame was not read: %d bytes, %v", len(first), err))
+			}
+			got = measure(func() {
 				_, _ = fr.Read()
 			})
 		case "frame8":
@@ -383,6 +395,9 @@ func runC13(c *checker, r *rng.R) {
 			}
 		}
 	}
+	for _, L := range []uint32{1 << 24, 24 << 20, 32 << 20, 33 << 20} {
+		c13Case(c, "frame-after-large", 0, append(put32(make([]byte, 4), 0, L), 'a', 'b', 'c'))
+	}
 	// envelope name length and frame length positions; top-level containers of every element type
 	for _, L := range bigLens {
 		for _, tail := range [][]byte{{}, {0}, {1, 0, 0, 0, 7, 0}, bytes.Repeat([]byte{'a'}, 40)} {
@@ -425,7 +440,7 @@ func runC13(c *checker, r *rng.R) {
 	}
 	c13DeepNesting(c)
 	c.flushCost()
-	c.rep.Rule = "messages ≤ 64 bytes (random structs, optionally enveloped strict/legacy) with every 4-byte length/count position set to each of {2^16, 2^20-1, 2^20, 2^20+1, 2^24, 2^27, 2^31-1, 0xffffffff, 0x80000000}; top-level containers of every element type (the 11 defined codes and 12 undefined ones); envelope name length; frame length (also with the frame reader's threshold lowered to 8 bytes and 7..40 bytes of the frame present) × APIs {stream primitives, Skip, Decode+EvaluateValue, ReadEnvelopeBegin, DecodeEnveloped, DecodeRequest, ReadRequest, frame reader}; the random-access APIs alternately over a bytes.Reader and over a source that has ReadAt and nothing else; deeply nested valid containers (1 item per level, up to 8000 levels: work must stay linear — known finding D79 for the lazy decoder); measured = runtime TotalAlloc delta; every case non-trivial; distinct by (api, bytes)"
+	c.rep.Rule = "messages ≤ 64 bytes (random structs, optionally enveloped strict/legacy) with every 4-byte length/count position set to each of {2^16, 2^20-1, 2^20, 2^20+1, 2^24, 2^27, 2^31-1, 0xffffffff, 0x80000000}; top-level containers of every element type (the 11 defined codes and 12 undefined ones); envelope name length; frame length (also with the frame reader's threshold lowered to 8 bytes and 7..40 bytes of the frame present, and on a reader that has read a genuine frame of 33 MiB before) × APIs {stream primitives, Skip, Decode+EvaluateValue, ReadEnvelopeBegin, DecodeEnveloped, DecodeRequest, ReadRequest, frame reader}; the random-access APIs alternately over a bytes.Reader and over a source that has ReadAt and nothing else; deeply nested valid containers (1 item per level, up to 8000 levels: work must stay linear — known finding D79 for the lazy decoder); measured = runtime TotalAlloc delta; every case non-trivial; distinct by (api, bytes)"
 	_ = strings.TrimSpace
 }
 
